@@ -98,18 +98,29 @@ def read_obs(xml: str):
 
 def read_ref(xml: str):
   """Reference reading under every combination of the abstention options -> (list of distinct AbsDoc, Info of the first).
-  Raises ref.Unsupported."""
+  Raises ref.Unsupported (carrying `.blocked`: the elements that can never begin under some supported reading)."""
   out, info0 = [], None
   seen = []
+  blocked = set()
+  unsupported = None
   for ws in (True, False):
     for sc in (True, False):
-      d, info = ref.interpret(et.fromstring(xml), ws_counts=ws, set_counts=sc)
+      try:
+        d, info = ref.interpret(et.fromstring(xml), ws_counts=ws, set_counts=sc)
+      except ref.Unsupported as u:
+        unsupported = unsupported or u
+        continue
+      blocked |= info.blocked
       if info0 is None:
         info0 = info
       key = fingerprint(d)
       if key not in seen:
         seen.append(key)
         out.append(d)
+  if unsupported is not None:
+    unsupported.blocked = blocked
+    raise unsupported
+  info0.blocked = blocked
   return out, info0
 
 
@@ -495,6 +506,9 @@ def check_corruption(ctx, c: dict):
   except ref.Unsupported as u:
     ctx.count("corrupt:skipped:" + str(u))
     refs = None
+    blocked = getattr(u, "blocked", set())
+  else:
+    blocked = info.blocked
   judged = False
   differs = None
   if refs is not None and not info.style_loop:
@@ -511,7 +525,7 @@ def check_corruption(ctx, c: dict):
         ctx.nontriv(c["xml"])
       if differs is None and len(ctx.samples) < 4 and nonempty:
         ctx.sample({"kind": "corruption", "attr": desc, "logged": [m for _n, m in new_records(rec1, rec0)][:2]})
-  if refs is not None and c.get("element_index") in info.blocked:
+  if c.get("element_index") in blocked:
     # the attribute sits on an element that can never begin (after a seq sibling that never ends): a reader may skip it unread
     ctx.count("corrupt:skipped:log-clause-on-blocked-element")
     if judged:
